@@ -11,16 +11,16 @@ THREADED_NOTE = ("Trusted base: the rxsim-rt facade models std RwLock/Mutex/Cond
 
 CLAIMED = {
  'C08': dict(level='exploration', design='5.8',
-   text="Seeded search over interleavings of 1..3 caller threads (post/abort, also from inside tasks) with the real NewThreadScheduler worker, with spurious wake-ups injected; every run's recorded history is checked against the statement (single runner, no overlap, at-most-once, real-time FIFO, nothing taken after abort returned, nothing lost without abort, worker exits within a bounded number of own steps). Exploration is the right level: the property is quantified over schedules, which the simulator samples by the hundred thousand and replays exactly.",
+   text="Seeded search over interleavings of 1..3 caller threads (post/abort, also from inside tasks) with the real NewThreadScheduler worker, with spurious wake-ups injected; every run's recorded history is checked against the statement (single runner, no overlap, at-most-once, real-time FIFO, nothing taken after abort returned, nothing lost without abort, worker exits within a bounded number of own steps). Exploration is the right level: the property is quantified over schedules, which the simulator samples by the hundred thousand and replays exactly. Fire-and-forget workloads drop every scheduler handle without abort (what was posted must still run).",
    technique='deterministic simulation: seeded random/sticky/PCT scheduling of real threads at lock granularity + injected spurious wake-ups, history oracle'),
  'C09': dict(level='exploration', design='5.9',
-   text="Seeded search over interleavings of the emitting thread, the real scheduler worker(s) and an optional unsubscribing thread, for scripted sources (cold or on their own thread) through observe_on / subscribe_on at any position of a short pipeline and stacked twice, subscribed once or twice. Oracle: recorded events equal the script (prefix under unsubscribe), callbacks on one worker thread that is not the emitter, never overlapping, nothing whose emission started after unsubscribe returned; subscribe_on subscribes the source on a worker.",
+   text="Seeded search over interleavings of the emitting thread, the real scheduler worker(s) and an optional unsubscribing thread, for scripted sources (cold or on their own thread) through observe_on / subscribe_on at any position of a short pipeline and stacked twice, subscribed once or twice. Oracle: recorded events equal the script (prefix under unsubscribe), callbacks on one worker thread that is not the emitter, never overlapping, nothing whose emission started after unsubscribe returned; subscribe_on subscribes the source on a worker. Further sources: a real Subject with a re-entrant subscriber (the callback feeds the source from the worker), two emitter threads merged in front of the pipeline, and a long backlog (1100 events pushed while the subscriber is stuck in its first callback).",
    technique='deterministic simulation: seeded scheduling of source/worker/unsubscriber threads + spurious wake-ups, history equality oracle'),
  'C18': dict(level='exploration', design='5.18',
-   text="Seeded search over interleavings of Future::poll (driven by a minimal executor on the simulated Mutex/Condvar, with eager re-polls and injected spurious wake-ups) with a source emitting on another thread. Oracle: Ready never before the source's terminal call started, never Pending for a poll started after it returned, exact items/error payload, and no deadlock (= no lost wake-up).",
+   text="Seeded search over interleavings of Future::poll (driven by a minimal executor on the simulated Mutex/Condvar, with eager re-polls and injected spurious wake-ups) with a source emitting on another thread. Oracle: Ready never before the source's terminal call started, never Pending for a poll started after it returned, exact items/error payload, and no deadlock (= no lost wake-up). The waker may change between polls, and a clone of the future is polled after the original resolved.",
    technique='deterministic simulation: seeded scheduling incl. scheduling points at lock release, spurious wake-ups; deadlock = lost wake-up'),
  'C11': dict(level='exploration', design='5.11',
-   text="Seeded search over interleavings of 2..3 emitting threads (every input of merge / flat_map / zip / concat / amb on its own simulated thread, with and without take(n) downstream) at lock-operation granularity. Oracle: conservation (multiset, per-input order, zip pairing, concat non-interleaving, single amb winner), take never exceeds n, exactly one complete after the last item, never two terminals.",
+   text="Seeded search over interleavings of 2..3 emitting threads (every input of merge / flat_map / zip / concat / amb on its own simulated thread, with and without take(n) downstream) at lock-operation granularity. Oracle: conservation (multiset, per-input order, zip pairing, concat non-interleaving, single amb winner), take never exceeds n, exactly one complete after the last item, never two terminals. flat_map's outer source may be a merge of two producer threads; under take(n) exactly n items are demanded.",
    technique='deterministic simulation: seeded scheduling of emitting threads, conservation oracle over the recorded history'),
  'C12': dict(level='exploration', design='5.12',
    text="Seeded search over interleavings of 1..2 producer threads, up to two concurrently subscribing threads and an unsubscribing thread on Subject / BehaviorSubject / ReplaySubject. Oracle with conservative stamps: steady observers get everything once in producer order; concurrent subscribers a gap-free suffix (ReplaySubject: everything; BehaviorSubject: a value then every later one); concurrent unsubscribers a gap-free prefix and nothing pushed after unsubscribe returned. Three genuine races of the pinned tree are recorded as open findings with an explains-predicate (push overlaps subscribe). A subscriber behind take(1) leaves from inside its first delivery; at quiescence the subject's observer count must equal the observers that stayed.",
@@ -35,14 +35,14 @@ CLAIMED = {
    text="Virtual-time runs of interval (new-thread and default scheduler), timer, delay, timeout, sample and debounce over scripted sources with gaps from a tie-free grid, with a slow consumer for timeout and re-subscription for interval/timer. Exact configuration: (virtual instant, event) pairs must equal the closed-form expectation. Jitter configuration (sleeps return up to 30 ms late), reported separately: lower bounds, order, no loss/duplication, and no timeout unless a gap exceeded d. delay is also fed by two producer threads merged into it (per-item latency judged).",
    technique='deterministic simulation: virtual clock + seeded scheduling of timer/source threads; exact and jitter configurations with separate oracles'),
  'C01': dict(level='exploration', design='5.1',
-   text="Generated pipelines over every operator of the crate (nested to depth 3 quick / 5 thorough, also the degenerate pipeline with the subscriber directly on the source) over 1..3 hot / cold / subject sources whose scripts carry the protocol-violation fault (events after the terminal, both terminals, repeated terminals, and re-entrant emission from inside the subscriber's callback), stepped in a generated sequential interleaving inside the simulator. Oracle: the contract automaton next* (error|complete)? at the recording subscriber and is_subscribed()==false after the terminal.",
+   text="Generated pipelines over every operator of the crate (nested to depth 3 quick / 5 thorough, also the degenerate pipeline with the subscriber directly on the source) over 1..3 hot / cold / subject sources whose scripts carry the protocol-violation fault (events after the terminal, both terminals, repeated terminals, and re-entrant emission from inside the subscriber's callback), stepped in a generated sequential interleaving inside the simulator. Oracle: the contract automaton next* (error|complete)? at the recording subscriber and is_subscribed()==false after the terminal. The two C19 families (a source misbehaving from two threads at once) are run under the same contract.",
    technique='deterministic simulation (single driver task): generated pipelines x injected protocol-violation faults x step orders; contract automaton',
    note="Single driver task under the simulator runtime (self-deadlocks, livelocks and panics end the run and are left to C07). Sampling of an unbounded program x script space; a clean batch is evidence, not proof."),
  'C05': dict(level='exploration', design='5.5',
    text="Sequential family: generated pipelines over well-formed hot/subject/cold sources with unsubscribe (or dropping a utils::Using guard) injected at every kind of position (before the first item, between events, after the terminal, repeatedly, from inside a callback) while the driver keeps stepping the sources. Threaded family: sources on their own simulated threads (with and without polling is_subscribed), short value-preserving pipelines with and without observe_on, unsubscribe from the main or a third thread at a scheduler-chosen point. Oracle with conservative stamps: no delivery whose emission started after unsubscribe returned; is_subscribed true until the first terminal/unsubscribe and false ever after.",
    technique='deterministic simulation: cancel fault at every script position (sequential) + seeded interleavings of unsubscribe with emitting threads'),
  'C06': dict(level='fault_enumeration', design='5.6',
-   text="pipeline = down(probe(cause)) over hot instrumented sources, real Subjects and unbounded producers: the cause (take, first, element_at, take_while, take_until, contains, all, sequence_equal, dematerialize on a Complete/Error item, amb, retry, an erroring input of merge/zip/flat_map, the source's own terminal, external unsubscribe) lands at generated positions and the driver keeps stepping every source afterwards. Oracle: after the probe saw the cause finish (and after the subscriber's terminal / unsubscribe) every emission attempt of a source below it sees is_subscribed()==false, subjects hold no observer, nothing is delivered, unbounded producers stop; amb losers and failed retry attempts as stated.",
+   text="pipeline = down(probe(cause)) over hot instrumented sources, real Subjects and unbounded producers: the cause (take, first, element_at, take_while, take_until, contains, all, sequence_equal, dematerialize on a Complete/Error item, amb, retry, an erroring input of merge/zip/flat_map, the source's own terminal, external unsubscribe) lands at generated positions and the driver keeps stepping every source afterwards. Oracle: after the probe saw the cause finish (and after the subscriber's terminal / unsubscribe) every emission attempt of a source below it sees is_subscribed()==false, subjects hold no observer, nothing is delivered, unbounded producers stop; amb losers and failed retry attempts as stated. A threaded family registers flat_map inner streams from several producer threads at once and then ends the subscription; shapes for retry over merge (siblings of a failed attempt), amb with an unbounded loser, and an endless start_with prefix.",
    technique='deterministic simulation (single driver task): terminating cause x position enumeration by generation; is_subscribed probes inside instrumented sources',
    note="The instant an operator has all it needs is observed by a pass-through probe stage written like the crate's own map. Sampling, not enumeration of all pipelines."),
  'C17': dict(level='fault_enumeration', design='5.17',
